@@ -883,26 +883,3 @@ def explain_types(law: str, ts: list[Any], ids: list[int] | None = None, names: 
         out["min_detail"] = detail(mlaw, small)
         out["key"] = make_key(mlaw, small, out["min_detail"])
     return out
-
-
-def replay_order(src_dir: str, pairs: list[list[int]], order_seed: int, flags: bool, target: list[int]) -> dict[str, Any]:
-    """Re-run a warm sequence and report the full answers for one target pair, warm and cold (cache-dependence witness)."""
-    u = _load(src_dir)
-    pairs = [p for p in pairs if u.types[p[0]] is not None and u.types[p[1]] is not None]
-    order = list(range(len(pairs)))
-    random.Random(order_seed).shuffle(order) if order_seed else None
-    _M.type_state.reset_all_subtype_caches()
-    warm = None
-    prefix = 0
-    for n, k in enumerate(order):
-        i, j = pairs[k]
-        full = [i, j] == target
-        _, _, d = _eval_pair(u.types[i], u.types[j], cold=False, flags=flags, full=full)
-        if full:
-            warm = d
-            prefix = n
-            break
-    s, t = u.types[target[0]], u.types[target[1]]
-    _, _, cold = _eval_pair(s, t, cold=True, flags=flags, full=True)
-    return {"target": target, "names": [u.names[target[0]], u.names[target[1]]], "types": [str(s), str(t)],
-            "kinds": [kind(s), kind(t)], "warm": warm, "cold": cold, "queries_before": prefix}
